@@ -4,7 +4,7 @@
 import os
 from typing import Optional
 
-from antlr4 import FileStream, CommonTokenStream
+from antlr4 import FileStream, CommonTokenStream, Token
 from antlr4.error.ErrorListener import ErrorListener
 from ...exceptions import MalCompilerError
 from .mal_lexer import malLexer
@@ -48,5 +48,15 @@ class MalCompiler:
         parser.removeErrorListeners()
         parser.addErrorListener(error_listener)
         tree = parser.mal()
+
+        # The start rule of the grammar does not end in EOF, so the parser
+        # stops without an error at the first token that cannot start a
+        # declaration; whatever follows must not be dropped silently.
+        if stream.LA(1) != Token.EOF:
+            token = stream.LT(1)
+            raise MalCompilerError(
+                f'{self.current_file}:{token.line}:{token.column}: '
+                f'extraneous input {token.text!r} expecting a declaration'
+            )
 
         return malVisitor(compiler=self).visit(tree)
